@@ -117,7 +117,9 @@ def run(facts, rep, ctx):
         except Unknown as u:
             rep.inconc(R2, "%s: %s" % (b.name, u))
             continue
-        end_valid = cat == "ann_write" and insert_into_labels(b)
+        # labels may sit at the end address (C01's domain: "labels at any address <= size"): by the accessor's
+        # role, not by how it happens to store the bucket (insert / entry API)
+        end_valid = cat == "ann_write" and (insert_into_labels(b) or short in ("write_label", "write_labels"))
         bad = []
         rows = 0
         for S in sizes:
